@@ -45,14 +45,36 @@ Definition rv_bin (o : bop) (x y : rv) : rv :=
   match o with OAdd => rv_add x y | OSub => rv_add x (rv_neg y) | OMul => rv_mul x y | ODiv => rv_div x y end.
 
 (* ---- arrays and scalars ---------------------------------------------------------- *)
-Record earr := EA { e_ma : bool; e_cells : list mcell }.     (* mcell = (raw, masked) from Arith *)
+(* what kind of array a value is: a plain PseudoNetCDFVariable (or ndarray), a masked-typed
+   PseudoNetCDFMaskedVariable, or a bare numpy.ma.MaskedArray (the result of an np.ma.* call) *)
+Inductive kind := KPlain | KPncMa | KNpMa.
+Definition is_ma (k : kind) : bool := match k with KPlain => false | _ => true end.
+Record earr := EA { e_kind : kind; e_cells : list mcell }.     (* mcell = (raw, masked) from Arith *)
+Definition e_ma (a : earr) : bool := is_ma (e_kind a).
+
+(* Kind of `p op q` and whether the masks are DROPPED.  numpy picks the result class by
+   __array_priority__: PseudoNetCDFMaskedVariable (1e9) > PseudoNetCDFVariable (1e7) > MaskedArray (15).
+   quirk = true is what the library's variables do: a plain PseudoNetCDFVariable on the LEFT of a bare
+   numpy masked array keeps the operation to itself and returns a plain variable, computed on the raw
+   data, without mask.  quirk = false is masked-array semantics (the property). *)
+Definition res_kind (quirk : bool) (kp kq : kind) : kind * bool :=
+  match kp, kq with
+  | KPncMa, _ | _, KPncMa => (KPncMa, false)
+  | KNpMa, _ => (KNpMa, false)
+  | KPlain, KNpMa => if quirk then (KPlain, true) else (KNpMa, false)
+  | KPlain, KPlain => (KPlain, false)
+  end.
+Definition clear_masks (l : list mcell) : list mcell := map (fun c => MC (raw c) false) l.
 Inductive eval_v := VS (x : rv) | VA (a : earr).
 
 (* one cell of a binary operation; is_ma = the result is a numpy.ma array *)
 Definition cell_bin (o : bop) (is_ma : bool) (c d : mcell) : mcell :=
   let v := rv_bin o (raw c) (raw d) in
   let dom := match o with ODiv => rv_is_zero (raw d) || nonfin v | _ => false end in
-  MC v (msk c || msk d || (is_ma && dom)).
+  let m := msk c || msk d || (is_ma && dom) in
+  (* numpy.ma leaves the LEFT operand's data under a masked result cell (np.copyto(result, da, where=m));
+     only observable where a later operation drops the mask (res_kind quirk) *)
+  MC (if is_ma && m then raw c else v) m.
 
 Fixpoint map2 {A B C} (f : A -> B -> C) (l : list A) (l' : list B) : list C :=
   match l, l' with x :: t, y :: t' => f x y :: map2 f t t' | _, _ => [] end.
@@ -60,47 +82,61 @@ Fixpoint map2 {A B C} (f : A -> B -> C) (l : list A) (l' : list B) : list C :=
 Definition scal (x : rv) : mcell := MC x false.
 
 (* None = the Python statement raises (unknown name, mismatching lengths) *)
-Definition val_bin (o : bop) (a b : eval_v) : option eval_v :=
+Definition val_bin (quirk : bool) (o : bop) (a b : eval_v) : option eval_v :=
   match a, b with
   | VS x, VS y => Some (VS (rv_bin o x y))
-  | VA p, VS y => Some (VA (EA (e_ma p) (map (fun c => cell_bin o (e_ma p) c (scal y)) (e_cells p))))
-  | VS x, VA q => Some (VA (EA (e_ma q) (map (fun d => cell_bin o (e_ma q) (scal x) d) (e_cells q))))
+  | VA p, VS y => Some (VA (EA (e_kind p) (map (fun c => cell_bin o (e_ma p) c (scal y)) (e_cells p))))
+  | VS x, VA q => Some (VA (EA (e_kind q) (map (fun d => cell_bin o (e_ma q) (scal x) d) (e_cells q))))
   | VA p, VA q =>
       if (length (e_cells p) =? length (e_cells q))%nat
-      then Some (VA (EA (e_ma p || e_ma q) (map2 (cell_bin o (e_ma p || e_ma q)) (e_cells p) (e_cells q))))
+      then let (k, drop) := res_kind quirk (e_kind p) (e_kind q) in
+           let ps := if drop then clear_masks (e_cells p) else e_cells p in
+           let qs := if drop then clear_masks (e_cells q) else e_cells q in
+           Some (VA (EA k (map2 (cell_bin o (is_ma k)) ps qs)))
       else None
   end.
 Definition val_neg (a : eval_v) : eval_v :=
   match a with
   | VS x => VS (rv_neg x)
-  | VA p => VA (EA (e_ma p) (map (fun c => MC (rv_neg (raw c)) (msk c)) (e_cells p)))
+  | VA p => VA (EA (e_kind p) (map (fun c => MC (rv_neg (raw c)) (msk c)) (e_cells p)))   (* ndarray.__neg__: data negated everywhere *)
   end.
 
-Inductive expr := EVar (n : nat) | EConst (q : Q) | ENeg (a : expr) | EBin (o : bop) (a b : expr).
+Inductive expr := EVar (n : nat) | EConst (q : Q) | ENeg (a : expr) | EBin (o : bop) (a b : expr)
+                | EMaskCmp (less : bool) (a : expr) (q : Q).   (* np.ma.masked_less(a, q) / np.ma.masked_greater(a, q) *)
+
+(* numpy.ma.masked_less / masked_greater of an array: a numpy.ma array, masked where it was or where
+   the comparison holds on the data (nan compares false) *)
+Definition val_maskcmp (less : bool) (q : Q) (a : eval_v) : option eval_v :=
+  match a with
+  | VA p => Some (VA (EA (match e_kind p with KPncMa => KPncMa | _ => KNpMa end)
+                         (map (fun c => MC (raw c) (msk c || (if less then rv_lt (raw c) q else rv_gt (raw c) q))) (e_cells p))))
+  | VS _ => None       (* 0-d results are not generated *)
+  end.
 
 Definition env := list (nat * eval_v).
 Fixpoint elookup {B} (k : nat) (l : list (nat * B)) : option B :=
   match l with [] => None | (k', v) :: t => if (k' =? k)%nat then Some v else elookup k t end.
 
-Fixpoint eval_expr (en : env) (e : expr) : option eval_v :=
+Fixpoint eval_expr (quirk : bool) (en : env) (e : expr) : option eval_v :=
   match e with
   | EVar n => elookup n en
   | EConst q => Some (VS (Fin q))
-  | ENeg a => option_map val_neg (eval_expr en a)
+  | ENeg a => option_map val_neg (eval_expr quirk en a)
+  | EMaskCmp l a q => match eval_expr quirk en a with Some x => val_maskcmp l q x | None => None end
   | EBin o a b =>
-      match eval_expr en a, eval_expr en b with
-      | Some x, Some y => val_bin o x y
+      match eval_expr quirk en a, eval_expr quirk en b with
+      | Some x, Some y => val_bin quirk o x y
       | _, _ => None
       end
   end.
 
 (* exec of `k1 = e1; k2 = e2; ...` : later statements see earlier assignments *)
 Definition stmt := (nat * expr)%type.
-Fixpoint exec (en : env) (ss : list stmt) : option env :=
+Fixpoint exec (quirk : bool) (en : env) (ss : list stmt) : option env :=
   match ss with
   | [] => Some en
-  | (k, e) :: t => match eval_expr en e with
-                   | Some v => exec ((k, v) :: en) t
+  | (k, e) :: t => match eval_expr quirk en e with
+                   | Some v => exec quirk ((k, v) :: en) t
                    | None => None
                    end
   end.
@@ -109,6 +145,7 @@ Fixpoint exec (en : env) (ss : list stmt) : option env :=
 Fixpoint vars_of (e : expr) : list nat :=
   match e with
   | EVar n => [n] | EConst _ => [] | ENeg a => vars_of a | EBin _ a b => vars_of a ++ vars_of b
+  | EMaskCmp _ a _ => vars_of a
   end.
 Fixpoint dedup (l : list nat) : list nat :=
   match l with [] => [] | x :: t => x :: filter (fun y => negb (y =? x)%nat) (dedup t) end.
@@ -152,7 +189,7 @@ Definition impl_eval (f : efile) (copyall : bool) (ss : list stmt) : eres :=
   match template f ss with
   | None => ERaise                                    (* subsetVariables(['N/A']) : KeyError *)
   | Some tkey =>
-      match base_vars f copyall tkey, exec (file_env f) ss with
+      match base_vars f copyall tkey, exec true (file_env f) ss with
       | Some base, Some en =>
           match store en (assigned ss) base with Some r => EOk r | None => ERaise end
       | _, _ => ERaise
@@ -175,7 +212,7 @@ Definition arr_matches (a : earr) (o : list ocell) : bool := list_eqb ocell_clos
    result is a variable of the file with identical cells; with copyall every variable of the
    file is in the result *)
 Definition spec_eval_ok (f : efile) (copyall : bool) (ss : list stmt) (out : list (nat * list ocell)) : bool :=
-  match exec (file_env f) ss with
+  match exec false (file_env f) ss with
   | None => false
   | Some en =>
       forallb (fun k => match elookup k en, elookup k out with
@@ -188,4 +225,21 @@ Definition spec_eval_ok (f : efile) (copyall : bool) (ss : list stmt) (out : lis
       && (negb copyall
           || forallb (fun p => is_target ss (fst p)
                                || match elookup (fst p) out with Some _ => true | None => false end) (ef_vars f))
+  end.
+
+(* known-defect region: the library's evaluation (quirk) and masked-array semantics give different
+   observable values for an assigned name *)
+Definition eval_quirk_region (f : efile) (ss : list stmt) : bool :=
+  match exec true (file_env f) ss, exec false (file_env f) ss with
+  | Some e1, Some e2 =>
+      negb (forallb (fun k => match elookup k e1, elookup k e2 with
+                              | Some (VA a), Some (VA b) => arr_matches a (map visible (e_cells b))
+                              | _, _ => true end) (assigned ss))
+  | _, _ => false
+  end.
+
+Fixpoint no_maskcall (e : expr) : bool :=
+  match e with
+  | EVar _ | EConst _ => true | ENeg a => no_maskcall a | EBin _ a b => no_maskcall a && no_maskcall b
+  | EMaskCmp _ _ _ => false
   end.
